@@ -67,7 +67,9 @@ class P:
         self.seq('(', 'pattern', ':', '&', 'Rc', '<', 'Pattern', '>', ',')
         var = self.eat()
         self.seq(':', 'Id', ',', 'plug', ':', '&', 'Rc', '<', 'Pattern', '>', ')', '->', 'Rc', '<', 'Pattern', '>', '{')
-        self.seq('let', 'wrap_subst', '=', '||')
+        self.eat('let')
+        self.wrapname = self.eat()
+        self.seq('=', '||')
         wrap = self.eat()
         self.seq('(', 'Rc', '::', 'clone', '(', 'pattern', ')', ',')
         self.eat(var)
@@ -163,7 +165,7 @@ class P:
             if x not in ('plug', 'pattern'):
                 fail(f'Rc::clone({x})')
             return ('clone', x)
-        if tok == 'wrap_subst':
+        if tok == getattr(self, 'wrapname', 'wrap_subst'):
             self.seq('(', ')')
             return ('wrap',)
         if tok == fn:
